@@ -303,6 +303,30 @@ func generate() {
 			do(baseReq(c, cls, "Alpha").line())
 		}
 	}
+	// who counts as a moderator of the parent for a creator without PERM_BOARD: the creator's id repeated back to
+	// back, overlapping, with a prefix / suffix, alone, and at every position of the moderator string
+	modIDs := []string{"ab", "aa", "Kahou"}
+	pres := []string{"", "x", "modA/", "9", "modA/x"}
+	posts := []string{"", "/modB", "y", "/ab9"}
+	if !run.Thorough() {
+		pres, posts = pres[:4], posts[:3]
+	}
+	for _, id := range modIDs {
+		for _, pre := range pres {
+			for _, post := range posts {
+				for _, mid := range []string{id + id, id + id[:1], id + id + id, id, id + "/" + id + id, id + id + "/" + id} {
+					bm := pre + mid + post
+					if len(bm) > 38 {
+						continue
+					}
+					t := mkTable(nil, 3, nil, true)
+					t[0].bm = []byte(bm)
+					do(resetFor(t, histOpt{}))
+					do(baseReq(caller{id, lvGroup}, 1, "Alpha").line())
+				}
+			}
+		}
+	}
 	// a vacated parent, a parent beyond BNumber, an ordinary board as parent: refused
 	do(resetFor(mkTable(nil, 4, []int{1}, true), histOpt{}))
 	for _, c := range []caller{sysop, brdman, {"modA", lvGroup}} {
